@@ -300,3 +300,12 @@ Proof.
   unfold just_bound in H1. simpl in H1.
   unfold limits_okb, type_bound_okb. rewrite !andb_true_iff. repeat split; apply Nat.leb_le; assumption.
 Qed.
+
+(* verifyMsgLimits as a function of (nodes, number of justification parts, number of values) *)
+Definition wrapper_limits_okb (n j v : nat) : bool := (j <=? 2 * n) && (v <=? 2 * (j + 1)).
+
+Lemma limits_okb_wrapper : forall n b J, limits_okb n b J = wrapper_limits_okb n (length J) (length (msg_values b J)).
+Proof. reflexivity. Qed.
+
+Lemma limits_okb_spec : forall n b J, limits_okb n b J = true <-> limits_ok n b J.
+Proof. intros. unfold limits_okb, limits_ok. rewrite andb_true_iff, !Nat.leb_le. tauto. Qed.
